@@ -83,3 +83,9 @@ Definition diff_family (k : N) (median current update : N) (v : nat) : N :=
   | 3 => (((update + W64 - current) mod W64) * (N.of_nat v + 1)) mod W64   (* wrapping subtraction *)
   | _ => if median <? update then 18446744073709551615 else update        (* saturates the sum *)
   end.
+
+(* ProcessEvent of an event whose creator is not in the validator set: validators.GetIdx reads a Go map
+   and returns the zero value, so column 0 is silently overwritten (outside the property: creators are
+   validators by C13; kept in the model so that the correspondence covers it) *)
+Definition qi_process_id (st : qidx) (clock : list hbs) (creator : option nat) (self : bool) : option qidx :=
+  qi_process st clock (match creator with Some c => c | None => 0%nat end) self.
